@@ -7,14 +7,15 @@ level, the trace of what the innermost runner executed and the records in every 
 Coq runs the model (State/Runner.v) over the same history and compares everything (history_eqb).
 The oracle re-checks the property text directly on the implementation's behaviour.
 """
-import json, math, os, shutil, tempfile
+import hashlib, json, math, os, shutil, tempfile
+import numpy as np
 import sympy
 from hlib import *
 from orquestra.quantum.api.circuit_runner import BaseCircuitRunner
 from orquestra.quantum.api.wavefunction_simulator import BaseWavefunctionSimulator
 from orquestra.quantum.runners.symbolic_simulator import SymbolicSimulator
 from orquestra.quantum.runners.trackers import MeasurementTrackingBackend
-from orquestra.quantum.circuits import (Circuit, X, H, Z, T, CNOT, RX, RY, GateOperation, MultiPhaseOperation,
+from orquestra.quantum.circuits import (Circuit, X, H, Z, T, CNOT, RX, RY, GateOperation, MultiPhaseOperation, CustomGateDefinition,
                                         to_dict, circuit_from_dict)
 from orquestra.quantum.measurements import Measurements
 from orquestra.quantum.distributions import MeasurementOutcomeDistribution
@@ -29,7 +30,11 @@ HN = Harness("C14", ["OQ.Base.CaseEq", "OQ.State.Runner", "OQ.State.RunnerCases"
              "get_wavefunction / exact expectation; about 40% of the calls carry invalid arguments (count <= 0, list of the "
              "wrong length, list with a non-positive entry, None for a base runner, unbound symbols, operator wider than the "
              "register); circuits of width 0-3 including empty and idle-qubit ones, symbolic rotations and "
-             "MultiPhaseOperation (a non-gate operation; under trackers this is the known finding F28); non-trivial = at least two successful calls and one rejected call in the history")
+             "MultiPhaseOperation (a non-gate operation; under trackers this is the known finding F28); 30% of the histories "
+             "(mostly tracker-wrapped, also nested) use user-defined gates (CustomGateDefinition, exact matrices) where "
+             "successive circuits reuse a gate NAME with a different matrix / arity / parameter list; an operation kind of "
+             "a user-defined gate is 1000 + a content hash, and every tracker record's circuit is deserialised and "
+             "compared with the circuit that was run (structure in the model comparison; ==, structure and unitary in the oracle); non-trivial = at least two successful calls and one rejected call in the history")
 
 THETA = sympy.Symbol("theta")
 KIND_NAMES = {"X": 0, "H": 1, "Z": 2, "T": 3, "CNOT": 4, "RX": 5, "RY": 6}
@@ -52,13 +57,51 @@ def build_circuit(spec):
         elif k == 5: ops.append(RX(0.5)(o[1]))
         elif k == 6: ops.append(RY(THETA)(o[1]))
         elif k == 7: ops.append(MultiPhaseOperation(tuple(0.125 * (i + 1) for i in range(2 ** nq))))
+        elif k == 8: ops.append(custom_op(o[1], o[2], o[3], o[4]))
         else: raise ValueError(k)
     return Circuit(ops, n_qubits=nq) if nq is not None else Circuit(ops)
 
+# user-defined gates: variants (arity, parametrised?, matrix) that histories put under the SAME gate name in
+# successive circuits (a sweep that compiles a unitary into a gate called "rot" at every step); entries are exact
+ALPHA = sympy.Symbol("alpha")
+_J = sympy.I
+CUSTOM_VARIANTS = [
+    (1, False, [[0, 1], [1, 0]]),
+    (1, False, [[1, 0], [0, -1]]),
+    (1, False, [[0, -_J], [_J, 0]]),
+    (1, False, [[1, 0], [0, _J]]),
+    (1, False, [[0, _J], [1, 0]]),
+    (2, False, [[1, 0, 0, 0], [0, 0, 1, 0], [0, 1, 0, 0], [0, 0, 0, 1]]),
+    (2, False, [[1, 0, 0, 0], [0, 1, 0, 0], [0, 0, 1, 0], [0, 0, 0, -1]]),
+    (2, False, [[1, 0, 0, 0], [0, 1, 0, 0], [0, 0, 0, 1], [0, 0, 1, 0]]),
+    (2, False, [[0, 0, 0, 1], [0, _J, 0, 0], [0, 0, 1, 0], [1, 0, 0, 0]]),
+    (1, True, [[1, 0], [0, sympy.exp(_J * ALPHA)]]),
+    (1, True, [[sympy.exp(_J * ALPHA), 0], [0, 1]]),
+    (1, True, [[0, sympy.exp(-_J * ALPHA)], [1, 0]]),
+]
+
+def custom_op(name, variant, qubits, param):
+    arity, parametrised, rows = CUSTOM_VARIANTS[variant]
+    gate_def = CustomGateDefinition(name, sympy.Matrix(rows), (ALPHA,) if parametrised else ())
+    args = ((THETA if param == "theta" else param),) if parametrised else ()
+    return gate_def(*args)(*qubits)
+
 def kind_of(op):
+    """operation kind for the abstraction; a user-defined gate gets 1000 + a hash of its CONTENT (name, arity,
+    parameters, matrix), so that same-named definitions with different matrices are different kinds"""
     if isinstance(op, MultiPhaseOperation):
         return MPO_KIND
-    return KIND_NAMES[op.gate.name]
+    g = op.gate
+    if g.name in KIND_NAMES:
+        return KIND_NAMES[g.name]
+    def num(x):
+        x = sympy.sympify(x)
+        if x.free_symbols:
+            return str(x)
+        z = complex(x)
+        return "%.9f%+.9fj" % (round(z.real, 9) + 0.0, round(z.imag, 9) + 0.0)
+    text = repr((g.name, int(g.num_qubits), [num(x) for x in g.params], [num(e) for e in g.matrix]))
+    return 1000 + int(hashlib.sha1(text.encode()).hexdigest(), 16) % 10 ** 6
 
 def abstract(circuit):
     return (int(circuit.n_qubits), [kind_of(op) for op in circuit.operations], bool(circuit.free_symbols),
@@ -123,11 +166,12 @@ class SimMixin:
         return super().get_wavefunction(circuit, initial_state)
 
 class RecSimPred(Spy, SimMixin, BaseWavefunctionSimulator):
-    def __init__(self, native, log, seed):
+    def __init__(self, native, log, seed, custom_native=False):
         super().__init__(seed=seed)
-        self.native, self.log = set(native), log
+        self.native, self.log, self.custom_native = set(native), log, custom_native
     def is_natively_supported(self, operation):
-        return kind_of(operation) in self.native
+        k = kind_of(operation)
+        return k in self.native or (self.custom_native and k >= 1000)
     def _get_wavefunction_from_native_circuit(self, circuit, initial_state):
         self.log.append(("seg", True, [kind_of(o) for o in circuit.operations]))
         _ACTIVE["native"] += 1
@@ -165,10 +209,14 @@ def build_runner(spec, log, tmpdir, depth=0):
         return RecBase(spec["over"], log), f"(RBase {cz(spec['over'])} 0%Z 0%Z)"
     if k == "sim":
         if spec["cls"] == "symbolic":
-            return RecSym(log, spec["seed"]), f"(RSim (native_in {clist(ALL_KINDS, cz)}) 0%Z 0%Z)"
-        if spec["cls"] == "default":
-            return RecSimDefault([], log, spec["seed"]), f"(RSim (native_in {clist(range(7), cz)}) 0%Z 0%Z)"
-        return RecSimPred(spec["native"], log, spec["seed"]), f"(RSim (native_in {clist(spec['native'], cz)}) 0%Z 0%Z)"
+            return RecSym(log, spec["seed"]), "(RSim (fun _ : Z => true) 0%Z 0%Z)"
+        if spec["cls"] == "default":      # every GateOperation (incl. user-defined gates), not MultiPhaseOperation
+            return RecSimDefault([], log, spec["seed"]), f"(RSim (fun k : Z => negb (Z.eqb k {cz(MPO_KIND)})) 0%Z 0%Z)"
+        cn = bool(spec.get("cn", False))
+        pred = f"(native_in {clist(spec['native'], cz)})"
+        if cn:
+            pred = f"(fun k : Z => orb (native_in {clist(spec['native'], cz)} k) (Z.leb 1000%Z k))"
+        return RecSimPred(spec["native"], log, spec["seed"], cn), f"(RSim {pred} 0%Z 0%Z)"
     if k == "tracker":
         inner, lit = build_runner(spec["inner"], log, tmpdir, depth + 1)
         return (RecTracker(inner, os.path.join(tmpdir, f"raw_{depth}.json"), spec.get("bits", False)),
@@ -238,9 +286,56 @@ def c_event(e):
         return f"(EWf {c_circuit(e[1])})"
     return f"(ESeg {cbool(e[1])} {clist(e[2], cz)})"
 
+def unitary_of(circuit):
+    st, u = outcome(lambda: np.array(circuit.to_unitary().tolist(), dtype=complex), timeout=20)
+    return u if st == "ok" else None
+
+def recorded_circuit_diff(entry, circuit):
+    """compare the circuit stored in a tracker record (deserialised) with the circuit that was run"""
+    st, got = outcome(circuit_from_dict, entry, timeout=20)
+    if st != "ok":
+        return f"recorded circuit cannot be deserialised ({got})"
+    if got != circuit:
+        detail = ""
+        for i, (o1, o2) in enumerate(zip(got.operations, circuit.operations)):
+            if o1 != o2:
+                m1, m2 = (getattr(getattr(o, "gate", None), "matrix", None) for o in (o1, o2))
+                detail = f" (operation {i}: recorded {o1} with matrix {m1}, run {o2} with matrix {m2})"
+                break
+        return f"recorded circuit deserialises to a different circuit: {got} instead of {circuit}{detail}"
+    if abstract(got) != abstract(circuit):
+        return "recorded circuit has a different structure"
+    if not circuit.free_symbols and 0 < circuit.n_qubits <= 3:
+        u1 = unitary_of(circuit)
+        if u1 is not None:
+            u2 = unitary_of(got)
+            if u2 is None or u1.shape != u2.shape or not np.allclose(u1, u2, atol=1e-9):
+                return "recorded circuit has a different unitary"
+    return None
+
 ERRS = {"ValueError": "ValueError", "TypeError": "TypeErr", "Other:AttributeError": "AttrError"}
 
 # ------------------------------------------------------------------ generator
+
+def add_custom_ops(rng, spec, custom, allow_free):
+    """insert 1-2 user-defined gate operations; custom = list of gate names of this history; the variant
+    (matrix, arity, parameter list) under a name changes from circuit to circuit"""
+    width = spec["nq"] if spec.get("nq") is not None else (max(max(o[1:]) for o in spec["ops"]) + 1 if spec["ops"] else 0)
+    if width < 1 or any(o[0] == 7 for o in spec["ops"]):
+        return spec
+    ops = list(spec["ops"])
+    for name in rng.sample(custom, rng.randint(1, len(custom))):
+        fit = [i for i, v in enumerate(CUSTOM_VARIANTS) if v[0] <= width]
+        v = rng.choice(fit)
+        arity, parametrised, _ = CUSTOM_VARIANTS[v]
+        qubits = rng.sample(range(width), arity)
+        param = None
+        if parametrised:
+            param = "theta" if (allow_free and rng.random() < 0.3) else rng.choice([0.5, 0.25, 1.5])
+        ops.insert(rng.randint(0, len(ops)), [8, name, v, qubits, param])
+    out = dict(spec, ops=ops)
+    out["nq"] = width
+    return out
 
 def gen_circuit(rng, allow_mpo, allow_free):
     r = rng.random()
@@ -275,20 +370,24 @@ def gen_runner(rng):
         return dict(kind="base", over=rng.choice([0, 0, 1, 2, 5]))
     if r < 0.65:
         cls = rng.choice(["pred", "pred", "pred", "default", "symbolic"])
-        return dict(kind="sim", cls=cls, seed=rng.randint(0, 10 ** 6),
+        return dict(kind="sim", cls=cls, seed=rng.randint(0, 10 ** 6), cn=rng.random() < 0.5,
                     native=sorted(rng.sample(ALL_KINDS, rng.randint(0, 8))) if cls == "pred" else [])
     inner = gen_runner(rng)
     while inner["kind"] == "tracker" and inner["inner"]["kind"] == "tracker":
         inner = gen_runner(rng)
     return dict(kind="tracker", bits=rng.random() < 0.4, inner=inner)
 
-def gen_call(rng, rspec):
+def gen_call(rng, rspec, custom=None):
     leaf = leaf_spec(rspec)
     tracked = rspec["kind"] == "tracker"
     is_sim = leaf["kind"] == "sim"
     # to_dict cannot serialise MultiPhaseOperation: under a tracker such circuits hit the known finding F28
-    circ = lambda free=None: gen_circuit(rng, rng.random() < (0.1 if tracked else 0.6 if is_sim else 0.3),
-                                         rng.random() < 0.2 if free is None else free)
+    def circ(free=None):
+        allow_free = rng.random() < 0.2 if free is None else free
+        if custom:      # the user-defined-gate stream: no MultiPhaseOperation, most circuits carry a custom gate
+            spec = gen_circuit(rng, False, allow_free)
+            return add_custom_ops(rng, spec, custom, allow_free) if rng.random() < 0.8 else spec
+        return gen_circuit(rng, rng.random() < (0.1 if tracked else 0.6 if is_sim else 0.3), allow_free)
     bad = rng.random() < 0.4
     r = rng.random()
     if r < 0.3:
@@ -324,7 +423,15 @@ def gen(rng, tier):
     n = {"quick": 500, "search": 300}.get(tier, 10000)
     for _ in range(n):
         rspec = gen_runner(rng)
-        calls = [gen_call(rng, rspec) for _ in range(rng.randint(3, 10))]
+        custom = None
+        if rng.random() < 0.3:
+            # user-defined gates, mostly behind a tracker; gate names are unique to the history so that a case
+            # never depends on what an earlier case serialised
+            while rspec["kind"] != "tracker" and rng.random() < 0.85:
+                rspec = gen_runner(rng)
+            tag = "%05x" % rng.randrange(16 ** 5)
+            custom = [f"rot_{tag}"] + ([f"u_{tag}"] if rng.random() < 0.4 else [])
+        calls = [gen_call(rng, rspec, custom) for _ in range(rng.randint(3, 10))]
         yield dict(runner=rspec, calls=calls)
 
 # ------------------------------------------------------------------ one case
@@ -523,19 +630,26 @@ def _run_case(inp, tmpdir):
                         fails.append(("tracker", f"{where}: {len(raw)} records for {len(pairs)} results"))
                     for ri, (rec, (ci, mi)) in enumerate(zip(raw, pairs)):
                         exp = dict(data_type="measurement", device=type(inner).__name__,
-                                   circuit=json.loads(json.dumps(to_dict(ci))), counts=mi.get_counts(),
+                                   circuit=rec.get("circuit"), counts=mi.get_counts(),
                                    number_of_gates=len(ci.operations), number_of_shots=len(mi.bitstrings))
                         if t.record_bitstrings:
                             exp["bitstrings"] = [list(map(int, b)) for b in mi.bitstrings]
                         if rec != exp:
                             bad = [k for k in set(rec) | set(exp) if rec.get(k) != exp.get(k)]
                             fails.append(("tracker", f"{where}: record {ri} differs from the returned measurement in {bad}"))
+                        diff = recorded_circuit_diff(rec.get("circuit"), ci)
+                        if diff:
+                            fails.append(("tracker", f"{where}: record {ri}: {diff}"))
                 else:
                     exp = dict(data_type="measurement outcome distribution", device=type(inner).__name__,
-                               circuit=json.loads(json.dumps(to_dict(c))), distribution=repr(res_here),
+                               circuit=raw[0].get("circuit") if raw else None, distribution=repr(res_here),
                                number_of_gates=len(c.operations), number_of_shots=n)
                     if raw != [exp]:
                         fails.append(("tracker", f"{where}: distribution record differs from the returned object"))
+                    else:
+                        diff = recorded_circuit_diff(raw[0].get("circuit"), c)
+                        if diff:
+                            fails.append(("tracker", f"{where}: distribution record: {diff}"))
             elif raised_here and after_files[ti][1] != before_files[ti][1]:
                 fails.append(("tracker", f"{where}: tracker file changed although the call raised"))
 
@@ -545,7 +659,8 @@ def _run_case(inp, tmpdir):
     f28 = [m for t, m in fails if t == "F28"]
     return dict(chk=chk, oracle_ok=not fails, oracle_msg="; ".join((other or f28 or f6)[:4]),
                 sig=None if (other or not fails) else ("F28" if f28 else "F6"),
-                kind=runner_label(inp["runner"]) + ("+F6" if f6 else "") + ("+F28" if f28 else ""),
+                kind=runner_label(inp["runner"]) + ("+custom" if '"rot_' in json.dumps(inp["calls"]) else "")
+                + ("+F6" if f6 else "") + ("+F28" if f28 else ""),
                 nontrivial=n_ok >= 2 and n_rejected >= 1)
 
 # ------------------------------------------------------------------ witnesses
